@@ -303,14 +303,14 @@ tx_impl!(fibre::spmc::BoundedSyncSender<Tk>, async = false, conv = to_async,
     ops = [TrySend, Send, TrySendBatch, TrySendBatchMut, SendBatch, SendBatchMut, Close, Convert, Len],
     feats = [tx_core, tx_sync_send, tx_batch_try, tx_batch_sync, obs, obs_full, cap_usize]);
 tx_impl!(fibre::spmc::BoundedAsyncSender<Tk>, async = true, conv = to_sync,
-    ops = [TrySend, TrySendBatch, TrySendBatchMut, Close, Convert, Len],
-    feats = [tx_core, tx_batch_try, obs, obs_full, cap_usize]);
+    ops = [TrySend, SendFut, TrySendBatch, TrySendBatchMut, Close, Convert, Len],
+    feats = [tx_core, tx_fut_send, tx_batch_try, obs, obs_full, cap_usize]);
 rx_impl!(fibre::spmc::BoundedSyncReceiver<Tk>, async = false, conv = to_async,
     ops = [TryRecv, Recv, RecvTimeout0, TryRecvBatch, TryRecvBatchMut, RecvBatch, RecvBatchMut, Close, Clone, Convert, Len],
     feats = [rx_core, rx_sync_recv, rx_batch_try, rx_batch_sync, obs, obs_full, cap_usize, rx_clone]);
 rx_impl!(fibre::spmc::BoundedAsyncReceiver<Tk>, async = true, conv = to_sync,
-    ops = [TryRecv, TryRecvBatch, TryRecvBatchMut, PollNext, Close, Clone, Convert, Len],
-    feats = [rx_core, rx_batch_try, rx_stream, obs, obs_full, cap_usize, rx_clone]);
+    ops = [TryRecv, RecvFut, TryRecvBatch, TryRecvBatchMut, PollNext, Close, Clone, Convert, Len],
+    feats = [rx_core, rx_fut_recv, rx_batch_try, rx_stream, obs, obs_full, cap_usize, rx_clone]);
 
 // ------------------------------------------------------------------ oneshot (hand-written: send consumes the handle)
 pub struct OneTx(pub UnsafeCell<Option<fibre::oneshot::Sender<Tk>>>);
